@@ -19,6 +19,8 @@
 package runtime
 
 import (
+	_ "unsafe"
+
 	c "github.com/goplus/llgo/runtime/internal/clite"
 	"github.com/goplus/llgo/runtime/internal/clite/signal"
 )
@@ -37,8 +39,15 @@ const (
 //
 // For wasm platform compatibility, signal handling is excluded via build tags.
 // See PR #1059 for wasm platform requirements.
+//go:linkname sigrelse C.sigrelse
+func sigrelse(sig c.Int) c.Int
+
 func init() {
 	signal.Signal(SIGSEGV, func(v c.Int) {
+		// The panic below leaves the handler through siglongjmp without restoring
+		// the signal mask, so unblock the signal first: otherwise the next nil
+		// dereference in this thread kills the process instead of panicking.
+		sigrelse(v)
 		if v == SIGSEGV {
 			panic(errorString("invalid memory address or nil pointer dereference"))
 		}
